@@ -28,7 +28,8 @@ Specification:
     Dasm_Cover EInit (Dasm_Edge_*.cfg): page-edge images - every instruction whose target depends on its own address
     (4004 JCN / ISZ in-page rule, FIN / JIN; 6800 all relative branches and BSR) with its first byte at page offsets
     FC, FD, FE, FF, 00 of two page boundaries, once per legal target item before and behind it (328 images).
-    Verdict-bearing: dasl ends normally; -binfile and -hexfile give the same text; asl accepts the text; bytes
+    Verdict-bearing: dasl ends normally; -binfile and -hexfile give the same text; the label printed for every
+    branch / call operand is the target the table decodes (TLC prints <<address, target>>); asl accepts the text; bytes
     identical over the listed areas; listed code and data areas disjoint and inside the image.  When asl rejects the
     text, the cause is classified from the failing line and (diagnosis only) repaired so that the remaining checks
     still run; every cause is a separate finding key.
@@ -171,6 +172,18 @@ def judge_image(rep, bld, im, dcpu, aslcpu, oracle=True):
         for m in re.finditer(r"\b((?:lab|sub)_([0-9A-Fa-f]{4}))", rb.out):
             if m.group(1).lower() not in defined and int(m.group(2), 16) not in inside:
                 return "out-of-domain"
+    # the label printed for a branch / call operand names the target the ISA table decodes (in-page and relative
+    # rules applied to the instruction's own address); a wrong label cannot re-assemble to the original bytes
+    for (a, t) in im.get("targets", []):
+        if a not in code:
+            continue
+        sl = re.sub(r"^\S+:", "", dasm.line_at(rb.out, a)).split(";")[0]
+        m = re.search(r"\b(?:lab|sub)_([0-9A-Fa-f]{4})\b", sl)
+        if m and int(m.group(1), 16) != t:
+            rep.violation("%s: instruction at %d (offset %02X of its page) is disassembled with target %s, the instruction "
+                          "set defines target %04X: '%s'" % (im["isa"], a, a % 256, m.group(1), t, sl.strip()), case=im,
+                          files=files, key=(dict(base, kind="wrong-target-label")))
+            break
     # re-assembly: verbatim first; remedies only to find out what is wrong and to still compare bytes
     text = rb.out
     rc, msgs, mem = dasm.reassemble(bld, aslcpu, text)
